@@ -333,6 +333,7 @@ type vUP4Stack struct {
 
 // vNewUP4Stack: real PFCP handlers on the real UP4 plug-in on the in-harness target.
 func vNewUP4Stack(cells int64) *vUP4Stack {
+	vConcreteClock(1000000) // time is not the subject of the harnesses built on this stack
 	cfg := vUP4Cfg{slice: 15, defaultTC: 3, qfiToTC: map[uint8]uint8{5: 0}} // QFI 5 explicitly mapped to class 0 (the map's zero value), QFI 9 unmapped
 	if vC04Rich != 0 {
 		cfg = vUP4Cfg{slice: uint8(vChoose("slice_id", 2) * 15), defaultTC: uint8(vChoose("default_tc", 2) * 3)}
@@ -376,10 +377,11 @@ func vSessionRules(k int) ([]vPDRSpec, []vFARSpec, []vQERSpec) {
 			qfi, gate, sessQ = 9, 0x1, false // downlink gate closed
 		}
 	}
-	up := vPDRSpec{uplink: true, id: 1, prec: 100, teid: uint32(0x1000 + k), n3: [4]byte{198, 18, 0, 1}, ue: ue, farID: 1, qerIDs: []uint32{1}, sdf: sdf}
-	dn := vPDRSpec{uplink: false, id: 2, prec: 100, ue: ue, farID: 2, qerIDs: []uint32{1}, sdf: sdf}
-	fu := vFARSpec{id: 1, action: ActionForward, uplink: true}
-	fd := vFARSpec{id: 2, action: ActionForward, uplink: false, teid: uint32(0x5000 + k), peer: gnb}
+	up := vPDRSpec{uplink: true, id: 1, prec: 100, teid: uint32(0x1000 + k), n3: [4]byte{198, 18, 0, 1}, ue: ue, farID: 11, qerIDs: []uint32{1}, sdf: sdf}
+	dn := vPDRSpec{uplink: false, id: 2, prec: 100, ue: ue, farID: 12, qerIDs: []uint32{1}, sdf: sdf}
+	// FAR ids deliberately differ from the ids of the PDRs that use them
+	fu := vFARSpec{id: 11, action: ActionForward, uplink: true}
+	fd := vFARSpec{id: 12, action: ActionForward, uplink: false, teid: uint32(0x5000 + k), peer: gnb}
 	qs := []vQERSpec{{id: 1, qfi: qfi, gate: gate, ulMbr: 1000, dlMbr: 2000}}
 	if sessQ {
 		up.qerIDs, dn.qerIDs = []uint32{1, 4}, []uint32{1, 4}
@@ -405,6 +407,12 @@ func H_C04_history() {
 		// every meter cell is either free (in one of the two pools) or configured for a live QER
 		u := st.env.up4
 		vAssert(tag+":meter-cells-free-plus-live-is-the-whole-array", vSetCard(u.appMeterCellIDsPool)+vSetCard(u.sessMeterCellIDsPool)+liveCells == 2*(16-1))
+		// ... and every counter cell is free or carried by one live PDR
+		livePDRs := 0
+		for _, s := range e.pc.store.GetAllSessions() {
+			livePDRs += len(s.pdrs)
+		}
+		vAssert(tag+":counter-cells-free-plus-live-is-the-whole-array", vSetCard(u.counters[preQosCounterID].counterIDsPool)+livePDRs == 16)
 	}
 	establish := func(k int) bool {
 		p, f, q := vSessionRules(k)
